@@ -10,6 +10,14 @@
 (* The #invoke call sits on the page (depth 0), in template W1 (depth 1), or  *)
 (* in W1 called from W2 (depth 2); W1/W2 forward {{{1}}}, {{{x}}} and the     *)
 (* routing parameters m, f.                                                   *)
+(* The template holding the #invoke is a page of the page store             *)
+(* (PageStore.tla); the call that reaches it may spell its name in any way   *)
+(* the store accepts (first-letter case, underscores, explicit / aliased     *)
+(* namespace prefix, leading colon for the main namespace) or name a         *)
+(* redirect page; the parent frame's title is the STORED title of the page   *)
+(* whose body is expanded (PageStore's reference RefResolve), whatever was   *)
+(* written at the call site, at depth 1 and 2 and when the template is       *)
+(* reached through frame:expandTemplate{title = ...}.                        *)
 EXTENDS Transclusion, Json
 
 CONSTANT Universe
@@ -48,12 +56,84 @@ Frags == { <<Txt(<<"t">>)>>, <<Call("T1", <<Pos(<<Txt(<<"z">>)>>), Named(<<"x">>
 \* plain strings handed to expandTemplate / callParserFunction from Lua
 Strs == { <<"e">>, <<"SP", "g", "SP">>, <<>> }
 
+(* ---------------- the wrapper as a page of the page store ---------------- *)
+\* atom tables of PageStore (same shape as MC_PageStore's)
+R_PfxNs == ("Template:" :> 10) @@ ("template:" :> 10) @@ ("TEMPLATE:" :> 10) @@ ("T:" :> 10) @@ ("t:" :> 10)
+           @@ ("Module:" :> 828) @@ ("module:" :> 828) @@ ("MOD:" :> 828)
+R_CanonPfx == ("10" :> "Template:") @@ ("828" :> "Module:")
+R_UpperOf == ("w" :> "W") @@ ("W" :> "W") @@ ("l" :> "L") @@ ("L" :> "L") @@ ("m" :> "M") @@ ("M" :> "M")
+\* only the constant-level operators of PageStore are used (title normalisation on add, candidate
+\* titles of get_page, the declarative reference RefGet/RefResolve); its variables are not
+PS == INSTANCE PageStore WITH PfxNs <- R_PfxNs, CanonPfx <- R_CanonPfx, UpperOf <- R_UpperOf, Dev <- {},
+                              ArgU <- {}, cur <- {}, com <- {}, memo <- {}
+
+WrapBox == <<"W", "rap", "SP", "box">>
+LowBox == <<"l", "ow", "SP", "box">>
+TWrapBox == <<"Template:">> \o WrapBox
+\* the add_page calls that build the store, in order (title as written by the caller, namespace,
+\* redirect target as written, body tag; "W1" = the wrapper body holding the #invoke)
+Adds == <<
+  [title |-> TWrapBox, ns |-> 10, redirect |-> PS!NoRedirect, body |-> "W1"],
+  \* added without the prefix (add_page supplies it); redirect to the wrapper
+  [title |-> <<"W", "b">>, ns |-> 10, redirect |-> TWrapBox, body |-> ""],
+  \* a redirect page with a blank in its own name whose target is written in another spelling
+  [title |-> <<"Template:", "W", "SP", "u">>, ns |-> 10, redirect |-> <<"Template:", "w", "rap", "US", "box">>, body |-> ""],
+  \* a wrapper stored with a lower-case first letter, and a redirect to it
+  [title |-> <<"Template:">> \o LowBox, ns |-> 10, redirect |-> PS!NoRedirect, body |-> "W1"],
+  [title |-> <<"Template:", "L", "b">>, ns |-> 10, redirect |-> <<"Template:">> \o LowBox, body |-> ""],
+  \* a main-namespace page of the SAME name as the template ({{:Wrap box}} transcludes it), and a redirect to it
+  [title |-> WrapBox, ns |-> 0, redirect |-> PS!NoRedirect, body |-> "W1"],
+  [title |-> <<"M", "r">>, ns |-> 0, redirect |-> WrapBox, body |-> ""],
+  [title |-> <<"Module:", "M">>, ns |-> 828, redirect |-> PS!NoRedirect, body |-> "M"] >>
+RECURSIVE StoreAfter(_)
+StoreAfter(k) == IF k = 0 THEN {}
+                 ELSE PS!Upsert(StoreAfter(k - 1), PS!Row(PS!NormAdd(Adds[k].title, Adds[k].ns), Adds[k].ns,
+                                                         Adds[k].redirect, Adds[k].body, "wikitext"))
+Store == StoreAfter(Len(Adds))
+
+\* a route = the way the call names the template: {{name|...}} or {{:name|...}}
+Underscored(t) == [i \in 1..Len(t) |-> IF t[i] = "SP" THEN "US" ELSE t[i]]
+LowerFirst(b) == [b EXCEPT ![1] = CASE b[1] = "W" -> "w" [] b[1] = "L" -> "l" [] b[1] = "M" -> "m" [] OTHER -> b[1]]
+UpperFirstB(b) == [b EXCEPT ![1] = IF b[1] \in DOMAIN R_UpperOf THEN R_UpperOf[b[1]] ELSE b[1]]
+TBases == {WrapBox, <<"W", "b">>, <<"W", "SP", "u">>, LowBox, <<"L", "b">>}
+MBases == {WrapBox, <<"M", "r">>}
+CaseSp(B) == B \cup {LowerFirst(b) : b \in B} \cup {UpperFirstB(b) : b \in B}
+UnderSp(S) == S \cup {Underscored(t) : t \in S}
+TPfx == {"Template:", "template:", "TEMPLATE:", "T:", "t:"}
+TSpellings == UnderSp(CaseSp(TBases) \cup {<<p>> \o b : p \in TPfx, b \in CaseSp(TBases)})
+MSpellings == UnderSp(CaseSp(MBases))
+\* the namespace the call denotes (core.py: template namespace unless the name starts with a colon)
+CallNs(r) == IF r.colon THEN 0 ELSE 10
+AllRoutes == {[colon |-> FALSE, name |-> s] : s \in TSpellings} \cup {[colon |-> TRUE, name |-> s] : s \in MSpellings}
+\* the page that supplies the body, per the statement's reference of the page store
+Supplier(r) == PS!RefResolve(Store, r.name, CallNs(r))
+\* routes that reach a wrapper (the others go nowhere: no #invoke is run, nothing to observe here)
+Routes == {r \in AllRoutes : Supplier(r).found /\ Supplier(r).body = "W1"}
+CanonRoute == [colon |-> FALSE, name |-> WrapBox]
+\* the page the written name denotes before redirects are followed
+FirstPage(r) == PS!RefGet(Store, r.name, CallNs(r), FALSE)
+\* transcription of the code path (get_page_resolve_redirect over get_page's candidate titles)
+CodeResolve(r) ==
+  LET g1 == PS!DbGet(Store, r.name, CallNs(r), FALSE) IN
+  IF g1.found /\ g1.redirect # PS!NoRedirect THEN PS!DbGet(Store, g1.redirect, CallNs(r), TRUE) ELSE g1
+
 V == IF Universe = "Q" THEN ValuesQ ELSE Values
 \* values of the numeric-named argument 2=...
 V3 == { Braced, <<Txt(<<"g">>)>>, <<Call("Sp", <<>>)>>, <<Txt(<<"NL">>), Call("T1", <<Pos(<<Txt(<<"j">>)>>)>>), Txt(<<"SP">>)>> }
-Cases == { [depth |-> d, a1 |-> a1, a2 |-> a2, a3 |-> a3, frag |-> fr, s1 |-> s1, s2 |-> s2] :
+\* family "args": the argument / fragment universe, the wrapper called by its stored name
+ArgCases == { [fam |-> "args", depth |-> d, via |-> FALSE, route |-> CanonRoute, a1 |-> a1, a2 |-> a2, a3 |-> a3, frag |-> fr, s1 |-> s1, s2 |-> s2] :
              d \in 0..2, a1 \in V, a2 \in V, a3 \in V3, fr \in (IF Universe = "Q" THEN {<<Txt(<<"t">>)>>, <<Call("T1", <<Pos(<<Txt(<<"z">>)>>), Named(<<"x">>, <<Call("Sp", <<>>)>>)>>)>>} ELSE Frags),
              s1 \in Strs, s2 \in (IF Universe = "Q" THEN {<<"e">>} ELSE Strs) }
+\* family "route": every way of reaching a wrapper x depth 1..2 x (called from wikitext | through
+\* frame:expandTemplate{title = ...} of a module invoked on the page); few argument values.
+\* Values handed on through expandTemplate carry no outer blanks (the equivalent call is all-named).
+RV(via) == IF via THEN {<<Txt(<<"a">>)>>} ELSE {<<Txt(<<"a">>)>>, <<Txt(<<"SP", "b", "SP">>)>>}
+RV2(via) == IF Universe = "Q" THEN {<<Txt(<<"g">>)>>} ELSE RV(via) \cup {<<Txt(<<"g">>)>>}
+RouteCasesOf(via) == { [fam |-> "route", depth |-> d, via |-> via, route |-> r, a1 |-> a1, a2 |-> a2, a3 |-> <<Txt(<<"g">>)>>,
+                        frag |-> <<Txt(<<"t">>)>>, s1 |-> <<"e">>, s2 |-> <<"e">>] :
+                      d \in 1..2, r \in Routes, a1 \in RV(via), a2 \in RV2(via) }
+RouteCases == RouteCasesOf(TRUE) \cup RouteCasesOf(FALSE)
+Cases == ArgCases \cup RouteCases
 
 VARIABLE case
 Init == case \in Cases
@@ -64,8 +144,13 @@ Spec == Init /\ [][Next]_case
 PageArgs(c) == <<Pos(c.a1), Named(<<"x">>, c.a2), Named(<<"2">>, c.a3)>>
 Fwd == <<Pos(<<Par(<<"1">>)>>), Named(<<"x">>, <<Par(<<"x">>)>>), Named(<<"2">>, <<Par(<<"2">>)>>)>>
 Route == <<Named(<<"m">>, <<Txt(<<"M">>)>>), Named(<<"f">>, <<Txt(<<"F">>)>>)>>
-W2Frame(c) == Frame(Bind(PageArgs(c) \o Route, 1, 1, TopFrame, Lib, {}))
-W1Frame(c) == IF c.depth = 1 THEN Frame(Bind(PageArgs(c) \o Route, 1, 1, TopFrame, Lib, {}))
+\* through frame:expandTemplate: the module function `via` invoked on the page with PageArgs, Route (and the
+\* title) hands every argument it sees to expandTemplate{title, args}: the equivalent all-named call
+SeenByVia(c) == Bind(PageArgs(c) \o Route, 1, 1, TopFrame, Lib, {})
+ViaArgs(c) == [i \in 1..Len(SeenByVia(c)) |-> [named |-> TRUE, key |-> <<Txt(SeenByVia(c)[i].key)>>, val |-> <<Txt(SeenByVia(c)[i].val)>>]]
+OuterArgs(c) == IF c.via THEN ViaArgs(c) ELSE PageArgs(c) \o Route
+W2Frame(c) == Frame(Bind(OuterArgs(c), 1, 1, TopFrame, Lib, {}))
+W1Frame(c) == IF c.depth = 1 THEN Frame(Bind(OuterArgs(c), 1, 1, TopFrame, Lib, {}))
               ELSE Frame(Bind(Fwd \o <<Named(<<"m">>, <<Par(<<"m">>)>>), Named(<<"f">>, <<Par(<<"f">>)>>)>>, 1, 1, W2Frame(c), Lib, {}))
 LuaArgs(c) == IF c.depth = 0 THEN Bind(PageArgs(c), 1, 1, TopFrame, Lib, {})
               ELSE Bind(Fwd, 1, 1, W1Frame(c), Lib, {})
@@ -74,7 +159,13 @@ LuaArgs(c) == IF c.depth = 0 THEN Bind(PageArgs(c), 1, 1, TopFrame, Lib, {})
 Expected(c) ==
   [args |-> LuaArgs(c),
    hasParent |-> c.depth > 0,
-   ptitle |-> IF c.depth > 0 THEN "Template:W1" ELSE "",
+   \* the enclosing template = the page whose body is expanded; its title is the stored one
+   ptitle |-> IF c.depth > 0 THEN Supplier(c.route).title ELSE <<>>,
+   \* how the route got there (for the report): the written name denotes a redirect page / is not the stored spelling
+   redirect |-> c.depth > 0 /\ FirstPage(c.route).redirect # PS!NoRedirect,
+   firstTitle |-> IF c.depth > 0 THEN FirstPage(c.route).title ELSE <<>>,
+   \* frame:getTitle() of the module's own frame: the stored title of the module page (beyond the statement)
+   ftitle |-> PS!RefResolve(Store, <<"M">>, 828).title,
    pargs |-> IF c.depth > 0 THEN W1Frame(c).b ELSE <<>>,
    pre |-> Expand(c.frag, Lib, {}),
    et |-> Expand(<<Call("T1", <<Named(<<"1">>, <<Txt(c.s1)>>), Named(<<"x">>, <<Txt(c.s2)>>)>>)>>, Lib, {}),
@@ -85,6 +176,18 @@ Expected(c) ==
 \* laws: the frame construction is independent of the wrapper depth (arguments are
 \* forwarded verbatim / trimmed exactly once)
 DepthIndependent == LuaArgs(case) = LuaArgs([case EXCEPT !.depth = 0])
+\* the title is a function of the page reached, not of the spelling: the code path (candidate titles,
+\* one redirect hop) and the reference agree on every route, the supplier is a stored non-redirect page
+\* holding the wrapper body, and two routes reaching the same page see the same title
+TitleLaws ==
+  /\ \A r \in AllRoutes : CodeResolve(r) = Supplier(r)
+  /\ \A r \in Routes : \E row \in Store : row.title = Supplier(r).title /\ row.ns = Supplier(r).ns
+                                           /\ row.redirect = PS!NoRedirect /\ row.body = "W1"
+  /\ CanonRoute \in Routes /\ Supplier(CanonRoute).title = TWrapBox
+ViaIndependent == case.via => LuaArgs(case) = LuaArgs([case EXCEPT !.via = FALSE])
 Emit == PrintT(<<"CASE", ToJson([case |-> case, exp |-> Expected(case)])>>)
-GenInv == DepthIndependent /\ Emit
+GenInv == DepthIndependent /\ ViaIndependent /\ Emit
+\* the store and the route universe, printed once (the harness installs exactly these pages)
+ASSUME TitleLaws
+ASSUME PrintT(<<"STORE", ToJson([adds |-> Adds, routes |-> Cardinality(Routes), unreachable |-> Cardinality(AllRoutes \ Routes)])>>)
 =============================================================================
